@@ -96,6 +96,10 @@ def main():
     if not os.path.abspath(cobra.__file__).startswith(os.path.abspath(want)):
         acc.harness_error(f"cobra imported from {cobra.__file__}, expected {want}")
     else:
+        if "cases" in desc:
+            # a native abort before the driver journals its first case (e.g. GLPK inside the preparation of a
+            # start model) is attributed to that case, so that the parent can resume behind it
+            acc.journal({"about_to_run": "first case of the shard (preparation)", "case": desc.get("first", 0), "base": desc.get("base")})
         try:
             if desc.get("kind") == "suite":
                 from cv import suiterun
